@@ -110,7 +110,7 @@ func init() {
 	}
 	registry["C09"] = func() Check {
 		return &SeqCheck{Prop: "C09",
-			Ideal: famIds(2, 1, 5), IdealDeep: famIds(3, 1, 6), IdealProps: []string{"P_C09"}, IdealInvs: []string{"CodePruneIsSpecPrune"},
+			Ideal: famIds(2, 1, 5), IdealDeep: famIds(3, 1, 6), IdealProps: []string{"P_C09"}, IdealInvs: []string{"CodePruneIsSpecPrune"}, Probes: probeReissue,
 			Proc: &ProcCheck{Prop: "C09", Scenarios: "PruneScenarios", IdealInvs: []string{"Serializable"}, Only: []string{"C09_serial"}},
 			GenQuick: famIds(2, 1, 4), GenThorough: famIds(2, 1, 6), SampleQuick: 100,
 			CraftQuick: famCraft(1200, "prune", "prune_dry"), CraftThorough: famCraft(40000, "prune", "prune_dry"),
